@@ -505,6 +505,26 @@ CHANNELS = [
     ('item-in-batch-skip-equal', '<dtml-in seq size=3 skip_unauthorized>'
      '<dtml-var pubdata>,</dtml-in>', ns_seq_refused_equal, 'items'),
 ] + [
+    # an underscore name asked for with white space in front of it (a
+    # quoted name attribute, a subscript of _, a no-break space that the tag
+    # grammar does not take for a separator): still an underscore name
+    ('wsname-%s-%d' % (where, i), pre + form.replace('WS', ws) + post,
+     builder, 'private-only')
+    for where, pre, post, builder in (
+        ('client', '', '', ns_client),
+        ('with', '<dtml-with o>', '</dtml-with>', ns_obj),
+        ('in', '<dtml-in seq>', '</dtml-in>', ns_seq))
+    for i, (form, ws) in enumerate(
+        (f, w) for f in ('<dtml-var name="WSATTR">',
+                         '<dtml-var name="WSATTR ">',
+                         '<dtml-if name="WSATTR">y<dtml-else>n</dtml-if>',
+                         '<dtml-var "_[\'WSATTR\']">',
+                         '<dtml-var "_.getitem(\'WSATTR\', 1)">',
+                         '<dtml-if "_.has_key(\'WSATTR\')">y</dtml-if>',
+                         '<dtml-var WSATTR missing="-">')
+        for w in (' ', '\t', '\xa0', '\u3000', '\x85')
+        if not (f.startswith('<dtml-var WS') and w in (' ', '\t')))
+] + [
     ('item-tree%s-%s' % (sk, kind), '<dtml-tree root%s><dtml-var label>,'
      '</dtml-tree>' % opt, other_container(ns_tree_refused_many, 'root',
                                            kind), 'items,mayfail')
@@ -790,6 +810,9 @@ def run(case):
     kind = case['kind']
     attr = ATTRS[kind]
     R = st['R1'] if case.get('guard') == 'attr-only' else st['R']
+    if 'private-only' in flags and kind != 'private':
+        res.outcome = 'private-only:n/a'
+        return res
     if 'fixed:' in flags:
         # the guarded name is a fixed (string) method name
         if kind == 'private':
@@ -900,7 +923,8 @@ def finalize(tier, agg):
     if len(agg['outcomes']) < 4:
         raise HarnessFault('vacuous: too few outcomes %r' % (
             dict(agg['outcomes']),))
-    plain = [c for c in CHANNELS if 'items' not in c[3]]
+    plain = [c for c in CHANNELS if 'items' not in c[3] and
+             'private-only' not in c[3]]
     if agg['outcomes'].get('public:visible', 0) < len(plain) * 0.8:
         raise HarnessFault('too many channels show nothing even for a '
                            'public attribute: %r' % dict(agg['outcomes']))
